@@ -62,13 +62,13 @@ var c06TapKind = &filters.Kind{
 	CreateInstance: func(spec filters.Spec) filters.Filter { return &c06Tap{spec: spec.(*c06TapSpec)} },
 }
 
-func (t *c06Tap) Name() string                  { return t.spec.Name() }
-func (t *c06Tap) Kind() *filters.Kind           { return c06TapKind }
-func (t *c06Tap) Spec() filters.Spec            { return t.spec }
-func (t *c06Tap) Init()                         {}
-func (t *c06Tap) Inherit(prev filters.Filter)   {}
-func (t *c06Tap) Status() interface{}           { return nil }
-func (t *c06Tap) Close()                        {}
+func (t *c06Tap) Name() string                { return t.spec.Name() }
+func (t *c06Tap) Kind() *filters.Kind         { return c06TapKind }
+func (t *c06Tap) Spec() filters.Spec          { return t.spec }
+func (t *c06Tap) Init()                       {}
+func (t *c06Tap) Inherit(prev filters.Filter) {}
+func (t *c06Tap) Status() interface{}         { return nil }
+func (t *c06Tap) Close()                      {}
 func (t *c06Tap) Handle(ctx *context.Context) string {
 	c := c06Cur
 	if c == nil {
